@@ -75,7 +75,7 @@ theorem dedup_fold (env : Env) : ∀ (t : Tree) (pre : Path) (st : DedupState),
                     fs := st.fs.push (Tree.node (.element name) ks).nsDecls } from rfl]
       rw [dedup_fold_list env ks pre 0]
       rw [dedupStep_stop_element]
-      simp only [hasNamespaceDeclarations, FStack.pop_push, FStack.top_push, ddWalk]
+      simp only [hasNamespaceDeclarations, FStack.pop_push_sc, FStack.top_push, ddWalk]
       split <;>
         simp only [List.map_append, List.map_cons, List.map_nil, prefixPath, List.append_nil,
           List.append_assoc]
